@@ -332,7 +332,11 @@ func visitInstr(fr *frame, instr ssa.Instruction) continuation {
 
 	case *ssa.Go:
 		fn, args := prepareCall(fr, &instr.Call)
-		i.spawned = append(i.spawned, &spawnedGo{fn: fn, args: args, pos: instr.Pos()})
+		if i.ex != nil && i.ex.sched != nil {
+			i.ex.sched.spawn(fn, args, instr.Pos())
+		} else {
+			i.spawned = append(i.spawned, &spawnedGo{fn: fn, args: args, pos: instr.Pos()})
+		}
 
 	case *ssa.MakeChan:
 		n := i.concreteInt(fr.get(instr.Size), "make(chan) size", 64)
@@ -703,7 +707,9 @@ func runFrame(fr *frame) {
 				if _, ok := r.(pathEnd); !ok {
 					if _, ok := r.(blockedPanic); !ok {
 						if _, ok := r.(engineBug); !ok {
-							r = engineBug{r: r, where: fr.stack()}
+							if _, ok := r.(coroKilled); !ok {
+								r = engineBug{r: r, where: fr.stack()}
+							}
 						}
 					}
 				}
